@@ -113,6 +113,7 @@ type sessionEnv struct {
 	chunkMode  int
 	onFeed     func(chunk []byte) // observer (after the terminal consumed a chunk)
 	termBytes  int
+	capture    bool
 }
 
 func newSessionEnv(s *simrt.Sched, res *RunResult, rows, cols int, caps simterm.Caps) *sessionEnv {
@@ -144,6 +145,9 @@ func (e *sessionEnv) termTask() {
 		chunk := e.toTerm[0]
 		e.toTerm = e.toTerm[1:]
 		e.termBytes += len(chunk)
+		if e.capture {
+			e.res.Diag = append(e.res.Diag, fmt.Sprintf("t=%v app->term %q", e.s.Now(), chunk))
+		}
 		for _, r := range e.term.FeedReplies(chunk) {
 			d, drop := time.Duration(0), false
 			if e.replyDelay != nil {
@@ -225,7 +229,7 @@ func (e *sessionEnv) quiesce() {
 // settle additionally waits for the wire to drain and for the application side
 // to have read it.
 func (e *sessionEnv) settle() {
-	for i := 0; i < 50; i++ {
+	for i := 0; i < 5; i++ {
 		simrt.WaitUntil(e.idleBox, "settle", func() bool {
 			return len(e.toTerm) == 0 && !e.termBusy && len(e.wire) == 0 && !e.wireBusy
 		})
